@@ -235,3 +235,49 @@ pub fn srgb_grid_xyz(n: usize, spec: &RgbSpec) -> Vec<V3> {
     }
     out
 }
+
+// ---------------------------------------------------------------------------------------
+// classification helpers shared by the graph checks (input classes of known defects)
+
+impl Kind {
+    pub fn is_ok_cyl(&self) -> bool {
+        matches!(self, Kind::Okhsl | Kind::Okhsv | Kind::Okhwb)
+    }
+    pub fn is_ok_family(&self) -> bool {
+        matches!(self, Kind::Oklab | Kind::Oklch | Kind::Okhsl | Kind::Okhsv | Kind::Okhwb)
+    }
+    /// types whose RGB space is `Srgb` (sRGB primaries, D65): palette converts these to and from
+    /// Oklab with Ottosson's direct linear-sRGB matrices instead of going through XYZ
+    pub fn is_srgb_space(&self) -> bool {
+        match self {
+            Kind::Rgb(s) | Kind::Hsl(s) | Kind::Hsv(s) | Kind::Hwb(s) => s.prim == crate::refmodel::rgb::SRGB.prim && s.wp == Wp::D65,
+            _ => false,
+        }
+    }
+    /// Like `to_xyz`, but Ok-family values are taken to XYZ through Ottosson's *direct*
+    /// Oklab -> linear sRGB matrices and the sRGB matrix (the other published definition).
+    pub fn to_xyz_alt(&self, v: V3) -> V3 {
+        let lab = match *self {
+            Kind::Oklab => v,
+            Kind::Oklch => cie::from_polar(v),
+            Kind::Okhsl => ok::okhsl_to_oklab(v),
+            Kind::Okhsv => ok::okhsv_to_oklab(v),
+            Kind::Okhwb => ok::okhsv_to_oklab(ok::okhwb_to_okhsv(v)),
+            _ => return self.to_xyz(v),
+        };
+        mat_vec(&crate::refmodel::rgb::SRGB.rgb_to_xyz(), ok::oklab_to_linear_srgb(lab))
+    }
+}
+
+/// Oklab hue (degrees, [0,360)), chroma and lightness of an XYZ(D65) colour
+pub fn oklab_hcl(xyz: V3) -> (f64, f64, f64) {
+    let lab = ok::xyz_to_oklab(xyz);
+    (lab[2].atan2(lab[1]).to_degrees().rem_euclid(360.0), (lab[1] * lab[1] + lab[2] * lab[2]).sqrt(), lab[0])
+}
+/// Hue of the sRGB blue primary in Oklab: the max-saturation approximation of Okhsl/Okhsv is
+/// discontinuous there.
+pub const OK_BLUE_CUSP_HUE: f64 = 264.0520206;
+pub fn on_ok_blue_cusp(xyz: V3) -> bool {
+    let (h, c, _) = oklab_hcl(xyz);
+    c > 1e-6 && (h - OK_BLUE_CUSP_HUE).abs() < 0.01
+}
